@@ -133,6 +133,7 @@ func fsWriteFile(ex *Exec, st *State, fr *Frame, callee *ssa.Function, args []Va
 	g.setExists(ite(okc, "true", unkE))
 	g.setLength(ite(okc, ln, ex.vc.Fresh("flen", BV(64))))
 	g.setContent(ite(okc, id, ex.vc.Fresh("filecontent", BV(64))))
+	ex.ghostBumpIf(st, "$ioFail", not(okc))
 	return res
 }
 
@@ -159,6 +160,7 @@ func fsCreate(ex *Exec, st *State, fr *Frame, callee *ssa.Function, args []Val, 
 	g.setContent(ite(okc, emptyContent, ex.vc.Fresh("filecontent", BV(64))))
 	ex.assume(st, implies(okc, eq(ex.handleName(h), name)))
 	ex.assume(st, implies(okc, ex.handleAppends(h)))
+	ex.ghostBumpIf(st, "$ioFail", not(okc))
 	return res
 }
 
@@ -209,6 +211,13 @@ func fsOpen(ex *Exec, st *State, fr *Frame, callee *ssa.Function, args []Val, c 
 	if flag&oAppend != 0 {
 		ex.assume(st, implies(okc, ex.handleAppends(h)))
 	}
+	// failing to open an existing file (or to create one) is an I/O failure;
+	// a missing file without O_CREATE is not
+	if flag&oCreate != 0 {
+		ex.ghostBumpIf(st, "$ioFail", not(okc))
+	} else {
+		ex.ghostBumpIf(st, "$ioFail", and(not(okc), was))
+	}
 	return res
 }
 
@@ -240,6 +249,7 @@ func fsFileWrite(ex *Exec, st *State, fr *Frame, callee *ssa.Function, args []Va
 		// n == len(b) when err == nil
 		ex.assume(st, implies(eq(errT, z64()), eq(sc(a.F[0]).T, ln)))
 	}
+	ex.ghostBumpIf(st, "$ioFail", not(eq(errT, z64())))
 	return res
 }
 
@@ -382,6 +392,7 @@ func fsWriteAt(ex *Exec, st *State, fr *Frame, callee *ssa.Function, args []Val,
 	ex.setComp(st, handleBytesKey, handleBytesSort(), sto(bk, h, ite(okc, nb, ex.vc.Fresh("hbytes", ArrS(BV(64), BV(8))))))
 	ex.setComp(st, handleLenKey, handleLenSort(), sto(lk, h, ite(okc, ite(app("bvsgt", end, ln), end, ln), ex.vc.Fresh("hlen", BV(64)))))
 	ex.assume(st, implies(eq(errT, z64()), eq(sc(res.F[0]).T, bvU(n, 64))))
+	ex.ghostBumpIf(st, "$ioFail", not(eq(errT, z64())))
 	return res
 }
 
